@@ -436,26 +436,61 @@ func (a *Scale) markData(fn *ssa.Function) {
 }
 
 func containerRole(v ssa.Value) string {
-	b := addrBase(v)
-	for {
-		if u, ok := b.(*ssa.UnOp); ok && u.Op == token.MUL {
-			b = addrBase(u.X)
-			continue
+	return containerRole1(v, map[ssa.Value]bool{})
+}
+
+func containerRole1(v ssa.Value, seen map[ssa.Value]bool) string {
+	for depth := 0; depth < 20; depth++ {
+		if seen[v] {
+			return "local"
 		}
-		if s, ok := b.(*ssa.Slice); ok {
-			b = addrBase(s.X)
-			continue
+		switch x := v.(type) {
+		case *ssa.Parameter:
+			return x.Name()
+		case *ssa.Global:
+			return x.Name()
+		case *ssa.FreeVar:
+			return x.Name()
+		case *ssa.Slice:
+			v = x.X
+		case *ssa.ChangeType:
+			v = x.X
+		case *ssa.Convert:
+			v = x.X
+		case *ssa.FieldAddr:
+			st := x.X.Type().Underlying().(*types.Pointer).Elem().Underlying().(*types.Struct)
+			return "." + st.Field(x.Field).Name()
+		case *ssa.IndexAddr:
+			v = x.X
+		case *ssa.UnOp:
+			if x.Op != token.MUL {
+				return "local"
+			}
+			v = x.X
+		case *ssa.Phi:
+			seen[v] = true
+			role := ""
+			for _, e := range x.Edges {
+				r := containerRole1(e, seen)
+				if role == "" {
+					role = r
+				} else if role != r {
+					return "local"
+				}
+			}
+			if role == "" {
+				return "local"
+			}
+			return role
+		case *ssa.Call:
+			if b, ok := x.Common().Value.(*ssa.Builtin); ok && b.Name() == "append" {
+				v = x.Common().Args[0]
+				continue
+			}
+			return "local"
+		default:
+			return "local"
 		}
-		break
-	}
-	switch x := b.(type) {
-	case *ssa.Parameter:
-		return x.Name()
-	case *ssa.Global:
-		return x.Name()
-	case *ssa.FieldAddr:
-		st := x.X.Type().Underlying().(*types.Pointer).Elem().Underlying().(*types.Struct)
-		return "." + st.Field(x.Field).Name()
 	}
 	return "local"
 }
